@@ -156,7 +156,7 @@ def run(P, rep, tier):
         if any('NEWLINE_FORMATS' in t or t.startswith(("'\\n'", "'\\r\\n'", '"\\n"')) for t in txt):
             funcs.append(f)
     route_rule(P, rep, r3, funcs, strip, newline_consts)
-    rep.floor(r3, 3)
+    rep.floor(r3, 1)
     # ---- R4: the reader asks for a section's newline with that section's effective encoding ----------------
     r4 = rep.rule('C15-R4', 'the reader derives the newline of a content section (declared or detected) with the very encoding the '
                   'section is decoded with, on every path', reference=6)
